@@ -159,6 +159,10 @@ def run(ctx):
                     r.bad("skip|" + name, "%s moves the cursor to the end of the matched lines without a further find(): matches starting "
                           "on the rest of the last line are skipped" % name, fn=g, loc=c.loc, construct="advance-line")
 
+    with ctx.rule("C13.WHOLEINPUT", "the multi-line buffer holds exactly the whole decoded input: emptied first, read to EOF (shared with C17.PATHS)", floor=4,
+                  kind="FLOW") as r:
+        from . import c17
+        c17.unbounded_rule(ctx, r)
     with ctx.rule("C13.LOCATE", "a line locator never extends a range that already ends with the terminator", floor=1, kind="GUARD") as r:
         # Any searcher routine that turns a Match into the Match of its lines by scanning forward from range.end() for the
         # terminator must first ask whether the byte before range.end() is the terminator: otherwise a match ending with
